@@ -43,6 +43,8 @@ fn main() {
     let prop = prop.unwrap_or_else(|| usage());
     let mk = |p: &'static str| Ctx { prop: p, tier, seed, start: Instant::now() };
     let code = match prop.as_str() {
+        "C08" => props::c08::run(&mk("C08")),
+        "C09" => props::c09::run(&mk("C09")),
         "C10" => props::c10::run(&mk("C10")),
         "C11" => props::c11::run(&mk("C11")),
         "C16" => props::c16::run(&mk("C16")),
